@@ -4,7 +4,9 @@ outcomes (shared by the C03, C04 and C12 drivers). Not mentioned by any theorem.
 
   map      cfg ';' rule ';' rule ...
   cfg      4 flags (strict merge redirect_defaults host_matching) ',' default_subdomain-toks
-  rule     toks '|' domain '|' methods '|' strict '|' merge '|' endpoint '|' defaults '|' alias '|' ws '|' build_only
+  rule     toks '|' domain '|' methods '|' strict '|' merge '|' endpoint '|' defaults '|' alias '|' ws '|' build_only [ '|' wraps ]
+  wraps    wrap '+' wrap ...   (factories around the rule, innermost first)
+  wrap     'M' toks (Submount) | 'D' toks (Subdomain) | 'E' hex (EndpointPrefix) | 'T' hex '=' hex '&' ... (RuleTemplate context)
   toks     tok ',' tok ...          ('' = no token, '~' = None where optional)
   tok      '/' | 'L' hex | 'V' conv ':' hex(name)
   conv     s.min.max.len | i.fixed.signed.min.max | f.signed.min.max | a.hex.hex... | u | p
@@ -13,6 +15,7 @@ outcomes (shared by the C03, C04 and C12 drivers). Not mentioned by any theorem.
   qa       '~' | 't' hex | 'p' hex '=' hex ',' ...
 -/
 import WzVerif.Model.RoutingAdapter
+import WzVerif.Model.RoutingFactory
 import WzVerif.Driver.Proto
 namespace Wz.Routing.Wire
 open Wz Wz.Proto Wz.Routing
@@ -100,6 +103,34 @@ def ruleArg (s : String) : Option RuleSpec :=
     | _, _, _, _, _, _, _, _, _, _ => none
   | _ => none
 
+def wrapArg (s : String) : Option Wrap :=
+  let body := (s.drop 1).toString
+  if s.startsWith "M" then (toksArg body).map .submount
+  else if s.startsWith "D" then (toksArg body).map .subdomain
+  else if s.startsWith "E" then (unhexStr body).map .endpointPrefix
+  else if s.startsWith "T" then
+    (allSome ((splitStr body "&").map fun kv =>
+      match kv.splitOn "=" with
+      | [k, v] => match unhexStr k, unhexStr v with
+        | some k, some v => some (k, v)
+        | _, _ => none
+      | _ => none)).map .template
+  else none
+
+/-- a rule with the factories around it: `none` = malformed, `some (.error _)` = the expansion raises -/
+def wrappedRuleArg (hm : Bool) (s : String) : Option (Except String RuleSpec) :=
+  match s.splitOn "|" with
+  | [a, b, c, d, e, f, g, h, i, j, w] =>
+    match ruleArg ("|".intercalate [a, b, c, d, e, f, g, h, i, j]), allSome ((splitStr w "+").map wrapArg) with
+    | some r, some ws => some (applyWraps hm ws r)
+    | _, _ => none
+  | _ => (ruleArg s).map .ok
+
+def allOk : List (Except String α) → Option (List α)
+  | [] => some []
+  | .error _ :: _ => none
+  | .ok a :: t => (allOk t).map (a :: ·)
+
 def cfgArg (s : String) : Option MapCfg :=
   match s.splitOn "," with
   | flags :: rest =>
@@ -113,9 +144,12 @@ def cfgArg (s : String) : Option MapCfg :=
 def mapArg (s : String) : Option (Option RMap) :=
   match s.splitOn ";" with
   | cfg :: rules =>
-    match cfgArg cfg, allSome (rules.map ruleArg) with
-    | some cfg, some specs => some (mkMap cfg specs)
-    | _, _ => none
+    match cfgArg cfg with
+    | some cfg =>
+      match allSome (rules.map (wrappedRuleArg cfg.hostMatching)) with
+      | some specs => some ((allOk specs).bind (mkMap cfg))
+      | none => none
+    | none => none
   | _ => none
 
 def qaArg (s : String) : Option QueryArgs :=
